@@ -60,6 +60,11 @@ pub trait Rule: RuleClone + Debug + Send {
             } else {
                 format!("{rendered}{equal_quantifier}")
             }
+        } else if kind == "escaped" && !escaper.has_unprintable(&expression) {
+            // nothing was escaped, so backslashes were not either: but they
+            // will be interpreted when read back as escaped expectation
+            let rendered = rendered.replace('\\', "\\\\");
+            format!("{rendered} (escaped{quantifier})")
         } else if kind == "glob" && escaper.has_unprintable(&expression) {
             // escape sequences in a glob are only resolved with the extra marker
             format!("{rendered} (escaped) (glob{quantifier})")
